@@ -25,6 +25,19 @@ Record case := mkCase {
   c_stored : list nat               (* contents of the target shard (tbl idx) *)
 }.
 
+(* Lossless run-length notation for the byte strings of a case: the driver writes the
+   REAL bytes (dump, stream, stored objects) as literal pieces and runs `Rep n b` (n times
+   the byte b).  Objects at the size-class boundaries (64 KiB, 1 MiB, ...) have low-entropy
+   payloads, so their dump is a few hundred literal bytes plus some runs; `unrle` gives
+   back exactly the bytes the implementation produced. *)
+Inductive seg := Lit (b : bytes) | Rep (n : N) (b : N).
+Fixpoint unrle (l : list seg) : bytes :=
+  match l with
+  | [] => []
+  | Lit b :: r => b ++ unrle r
+  | Rep n b :: r => repeat b (N.to_nat n) ++ unrle r
+  end.
+
 Definition stream_of (c : case) : bytes :=
   match c_stream c with Some s => s | None => c_dump c end.
 
